@@ -115,7 +115,7 @@ func (p *propImpl) resolve(value string, lookupFn LookupFn, seen []string) *stri
 			} else {
 				si = indexAfter(result, p.b.prefix, ei+p.sl)
 			}
-			removeFromSlice(seen, orig)
+			seen = removeFromSlice(seen, orig)
 		} else {
 			si = notFound
 		}
